@@ -32,17 +32,23 @@ Definition no_extra (s : pstate) : extra := mkExtra s None false false None.
 
 Definition xpost : Type := (post * extra)%type.
 
-(* postings appended by finalize (ITEM_GENERATED) copy the state of the null posting; print
-   skips them, so their extras never matter *)
-Fixpoint attach (ps : list post) (es : list extra) : list xpost :=
+(* postings finalize adds after the written ones take over a state: the balancing posting of the
+   bucket rule (xact.cc:214-218, a single written posting) gets the _state of the first posting, the state
+   of the posting it balances; the ITEM_GENERATED postings of a multi-commodity null fill copy the
+   null posting's details (print skips those, so their state never shows).  Both are modelled as
+   the state of the FIRST written posting: exact for the bucket posting, unobserved for the others *)
+Fixpoint attach_from (s : pstate) (ps : list post) (es : list extra) : list xpost :=
   match ps with
   | [] => []
   | p :: ps' =>
       match es with
-      | e :: es' => (p, e) :: attach ps' es'
-      | [] => (p, no_extra SUncleared) :: attach ps' []
+      | e :: es' => (p, e) :: attach_from s ps' es'
+      | [] => (p, no_extra s) :: attach_from s ps' []
       end
   end.
+
+Definition attach (ps : list post) (es : list extra) : list xpost :=
+  attach_from (match es with e :: _ => e_state e | [] => SUncleared end) ps es.
 
 (* ------------------------------------------------------------------ what the reader gets back *)
 
